@@ -45,6 +45,8 @@ pub struct Cfg {
     pub max_items: u16,
     /// group suites: number of group operations available
     pub ops: u8,
+    /// poll the subject once more after its final result (it may panic or answer anything, but must not poll a child)
+    pub probe: bool,
 }
 
 impl Cfg {
@@ -63,6 +65,7 @@ impl Cfg {
             por: true,
             max_items: 0,
             ops: 0,
+            probe: false,
         }
     }
 }
@@ -376,8 +379,10 @@ impl World {
         }
     }
 
+    /// At most two messages per property and execution are kept, so that a monitor that fires at every
+    /// step cannot crowd out the verdict of another property.
     pub fn violate(&mut self, prop: u8, msg: impl FnOnce() -> String) {
-        if self.violations.len() < 8 {
+        if self.violations.iter().filter(|v| v.prop == prop).count() < 2 {
             let m = msg();
             self.violations.push(Violation { prop, msg: m });
         }
@@ -593,7 +598,7 @@ impl World {
             self.violate(3, || format!("child {} (slot {}) polled again after it completed ({:?})", id, slot, last));
             // family clauses that repeat this for particular children
             if let Some((f, home)) = owner_fam {
-                if matches!(f, Fam::RaceOk | Fam::WaitFut | Fam::WaitStr | Fam::StrGroup) {
+                if matches!(f, Fam::RaceOk | Fam::WaitFut | Fam::WaitStr | Fam::StrGroup | Fam::Chain) {
                     self.violate(home, || format!("{:?}#{}: child at slot {} polled again after it completed ({:?})", f, owner, slot, last));
                 }
             }
